@@ -323,7 +323,9 @@ class JSONGrammar(BaseGrammar):
         """
         self.__schema_builder.add_schema(schema, not merge)
         self.__init_dependencies()
-        self._required_names |= self.__schema_builder.required
+        # The schema builder intersects the required names of the successive schemas:
+        # use the ones of the current schema.
+        self._required_names |= set(schema.get("required", ()))
         self.__schema_builder.required.clear()
 
     def to_file(self, path: Path | str = "") -> None:
